@@ -298,10 +298,7 @@ Section Equiv.
         apply elems_equiv; auto. clear -GA. revert l GA. induction n; intros l GA; simpl; [constructor|].
         destruct l; [constructor|]. inversion GA; subst. constructor; auto.
       + (* TMap *) intros k e _ F. discriminate.
-      + (* TPtr *) intros e IH F im j v Him G Hv. simpl in F. step. rewrite Him. simpl negb. rewrite andb_false_l.
-        assert (U : unpinned_null 1 e = false).
-        { clear -F. revert F. generalize 1%nat. induction e; intros d F; simpl in *; try reflexivity; try discriminate. apply IHe. exact F. }
-        rewrite U.
+      + (* TPtr *) intros e IH F im j v Him G Hv. simpl in F. step.
         assert (Hx : nh (match v with VPtr x => x | _ => zero e end) = true).
         { destruct v; try apply (proj1 nh_zero). exact Hv. }
         destruct j; try reflexivity; rewrite (IH F im _ _ Him G Hx); reflexivity.
@@ -468,8 +465,9 @@ Theorem u32_key_and_f32_edge_agree :
   sonic_unmarshal h1 Opt opts_std TF32 (b "3.4028235e38") (VFlt 0) = Ok (VFlt 2139095039).
 Proof. repeat split; vm_compute; reflexivity. Qed.
 
-Theorem ptrptr_null_refuted_11 :
-  sonic_unmarshal h1 Jit opts_std (TPtr (TPtr TUnm)) (b "null") VNil = Err /\
+(* repaired (fac5479): null into a pointer to pointer to an unmarshaler is nil under all three *)
+Theorem ptrptr_null_agree_11 :
+  sonic_unmarshal h1 Jit opts_std (TPtr (TPtr TUnm)) (b "null") VNil = Ok VNil /\
   sonic_unmarshal h1 Opt opts_std (TPtr (TPtr TUnm)) (b "null") VNil = Ok VNil.
 Proof. split; vm_compute; reflexivity. Qed.
 
